@@ -27,10 +27,23 @@ SysVars == <<"sysv">>                  \* the system block starts with `typedef 
 BaseFuns == <<"pos">>
 BaseTypes == <<"id_t">>
 
-GExtra == << [txt |-> "int g1;", vs |-> <<"g1">>],
-             [txt |-> "clock g2;", vs |-> <<"g2">>],
-             [txt |-> "int g3 = N, g4;", vs |-> <<"g3", "g4">>],
-             [txt |-> "meta int g5;", vs |-> <<"g5">>] >>
+(* further global declarations: txt, the variables / functions / types it declares (in order), and the document-level features it sets *)
+GX(txt, vs, funs, types, feat) == [txt |-> txt, vs |-> vs, funs |-> funs, types |-> types, feat |-> feat]
+F(k, v) == [k |-> k, v |-> v]
+GExtra == << GX("int g1;", <<"g1">>, <<>>, <<>>, <<>>),
+             GX("clock g2;", <<"g2">>, <<>>, <<>>, <<>>),
+             GX("int g3 = N, g4;", <<"g3", "g4">>, <<>>, <<>>, <<>>),
+             GX("meta int g5;", <<"g5">>, <<>>, <<>>, <<>>),
+             GX("typedef struct { int u; int w; } rec_t;\nrec_t r0 = {1, 2};", <<"r0">>, <<>>, <<"rec_t">>, <<>>),
+             GX("int sq(int v) { int t = v; t = t * v; return t; }", <<>>, <<"sq">>, <<>>, <<>>),
+             GX("before_update { i = 0 }", <<>>, <<>>, <<>>, <<F("before_update", "i = 0")>>),
+             GX("after_update { j = 1 }", <<>>, <<>>, <<>>, <<F("after_update", "j = 1")>>),
+             GX("chan priority c < default;", <<>>, <<>>, <<>>, <<F("chan_priority", "c<default")>>),
+             GX("const int K2[2] = {1, 2};", <<"K2">>, <<>>, <<>>, <<>>),
+             GX("void lp() { for (k : int[0,1]) { i = k; } while (i > 0) { i--; } }", <<>>, <<"lp">>, <<>>, <<>>) >>
+(* declarations that follow the process list in the system block *)
+SysX == << [txt |-> "progress { i; }", feat |-> <<F("progress", "i")>>],
+           [txt |-> "gantt { G(k : int[0,1]) : i == k -> 1; }", feat |-> <<F("gantt", "G")>>] >>
 
 ParamPool == << [txt |-> "int p", name |-> "p", cls |-> "int", free |-> FALSE],
                 [txt |-> "const id_t w", name |-> "w", cls |-> "int", free |-> TRUE],
@@ -77,7 +90,7 @@ Ctrls == {"", "true", "false"}
 VARIABLES m, phase, budget
 vars == <<m, phase, budget>>
 
-EmptyModel == [gdecl |-> <<>>, templs |-> <<>>, insts |-> <<>>, procs |-> <<>>, seps |-> <<>>, localids |-> FALSE]
+EmptyModel == [gdecl |-> <<>>, templs |-> <<>>, insts |-> <<>>, procs |-> <<>>, seps |-> <<>>, sysx |-> <<>>, localids |-> FALSE]
 NT == Len(m.templs)
 CurT == m.templs[NT]
 TemplName(n) == "T" \o ToString(n)
@@ -211,9 +224,12 @@ AddProc == /\ phase \in {"sys", "procs"} /\ Len(m.procs) < MaxProc
                                /\ \E sep \in {",", "<"} :
                                     m' = [m EXCEPT !.procs = Append(@, n), !.seps = IF m.procs = <<>> THEN <<>> ELSE Append(@, sep)]
            /\ phase' = "procs" /\ UNCHANGED budget
+AddSysX == /\ phase = "procs" /\ Spend
+           /\ \E k \in (LastIdx(m.sysx) + 1)..Cap(Len(SysX)) : m' = [m EXCEPT !.sysx = Append(@, k)]
+           /\ UNCHANGED phase
 Finish == /\ phase = "procs" /\ m' = m /\ phase' = "done" /\ UNCHANGED budget
 
-Next == GDecl \/ OpenTemplate \/ LDecl \/ AddLoc \/ AddBp \/ SetInit \/ AddEdge \/ Label \/ StartSystem \/ AddInst \/ AddProc \/ Finish
+Next == GDecl \/ OpenTemplate \/ LDecl \/ AddLoc \/ AddBp \/ SetInit \/ AddEdge \/ Label \/ StartSystem \/ AddInst \/ AddProc \/ AddSysX \/ Finish
 Spec == Init /\ [][Next]_vars
 
 (* ---------------------------------------------------------------- the mirror: what the document must contain *)
@@ -246,7 +262,10 @@ Expected(mm) ==
      templates |-> [t \in 1..Len(mm.templs) |-> ExpTempl(mm.templs[t])],
      instances |-> [q \in 1..Len(mm.insts) |-> ExpInst(mm, mm.insts[q].name)],
      processes |-> [q \in 1..Len(mm.procs) |-> ExpInst(mm, mm.procs[q])],
-     priorities |-> \E q \in 1..Len(mm.seps) : mm.seps[q] = "<"]
+     priorities |-> (\E q \in 1..Len(mm.seps) : mm.seps[q] = "<") \/ (\E q \in 1..Len(mm.gdecl) : \E r \in 1..Len(GExtra[mm.gdecl[q]].feat) : GExtra[mm.gdecl[q]].feat[r].k = "chan_priority"),
+     gfuns |-> BaseFuns \o Flatten([q \in 1..Len(mm.gdecl) |-> GExtra[mm.gdecl[q]].funs]),
+     gtypes |-> BaseTypes \o Flatten([q \in 1..Len(mm.gdecl) |-> GExtra[mm.gdecl[q]].types]) \o <<"sys_t">>,
+     features |-> Flatten([q \in 1..Len(mm.gdecl) |-> GExtra[mm.gdecl[q]].feat]) \o Flatten([q \in 1..Len(mm.sysx) |-> SysX[mm.sysx[q]].feat])]
 
 (* pool texts, resolved for the renderer *)
 Resolved(mm) ==
@@ -263,7 +282,7 @@ Resolved(mm) ==
                        sync |-> Txt(SyncPool, e.sync, ""), asg |-> TxtR(AsgPool, e.asg, ""), prob |-> Txt(ProbPool, e.prob, "")]]]],
      insts |-> [q \in 1..Len(mm.insts) |-> [name |-> mm.insts[q].name, own |-> [r \in 1..Len(mm.insts[q].own) |-> OwnPool[mm.insts[q].own[r]].txt],
                                            base |-> mm.insts[q].base, args |-> mm.insts[q].args]],
-     procs |-> mm.procs, seps |-> mm.seps, localids |-> mm.localids]
+     procs |-> mm.procs, seps |-> mm.seps, sysx |-> [q \in 1..Len(mm.sysx) |-> SysX[mm.sysx[q]].txt], localids |-> mm.localids]
 
 (* ---------------------------------------------------------------- sanity of the generator itself (checked on every state) *)
 AllIds(mm) == IF mm.localids THEN <<>> ELSE Flatten([t \in 1..Len(mm.templs) |-> [q \in 1..Len(mm.templs[t].locs) |-> mm.templs[t].locs[q].id] \o
